@@ -1,6 +1,8 @@
 """C09 - predict returns the arm with the highest expectation."""
 import copy
 
+import numpy as np
+
 from hypothesis import strategies as st
 
 from vlib import gen, ops, twin
@@ -22,6 +24,26 @@ ASSUMPTIONS = [
 NT_FLOOR = 0.3
 
 
+def _near_pairs():
+    """Pairs of equally long reward lists (tenths) with the same exact mean whose floating-point means differ in the
+    last bits: (list with the smaller float mean, list with the larger one)."""
+    import itertools
+    out = []
+    for n in (2, 3):
+        by_sum = {}
+        for c in itertools.combinations_with_replacement(range(0, 11), n):
+            by_sum.setdefault(sum(c), []).append(c)
+        for cs in by_sum.values():
+            fm = [(float(np.array([k / 10.0 for k in c]).sum() / n), c) for c in cs]
+            lo, hi = min(fm), max(fm)
+            if lo[0] < hi[0]:
+                out.append(([k / 10.0 for k in lo[1]], [k / 10.0 for k in hi[1]]))
+    return out
+
+
+NEAR_PAIRS = _near_pairs()
+
+
 @st.composite
 def plan_st(draw, tier):
     cfg = draw(gen.config_st(metrics=gen.SAFE_METRICS, arm_kinds=("int", "str", "float"), min_arms=1, max_arms=5, with_binarizer=False,
@@ -33,6 +55,24 @@ def plan_st(draw, tier):
         fam = draw(st.sampled_from(["T", "D"]))   # exact ties, or near-ties that are NOT ties (0.3 vs 0.30000000000000004)
     h = gen.History(draw, cfg, reward_family=fam, grid=draw(st.sampled_from(["int", "small"])), max_rows=8,
                     query_rows=(1, 2, 3, 6))
+    if fam == "D" and len(cfg["arms"]) >= 2 and draw(st.booleans()):
+        # engineered near-tie: two arms with equally many rewards and the same exact mean, the arm listed first with
+        # the (last-bits) smaller floating-point mean; every other arm far below. All rows share one context, which
+        # is also the query, so every neighbourhood holds all rows.
+        lo, hi = draw(st.sampled_from(NEAR_PAIRS))
+        i, j = sorted(draw(st.lists(st.integers(0, len(cfg["arms"]) - 1), min_size=2, max_size=2, unique=True)))
+        dec, rew = [], []
+        for pos, a in enumerate(cfg["arms"]):
+            rs = lo if pos == i else hi if pos == j else [0.0] * len(lo)
+            dec += [a] * len(rs)
+            rew += rs
+        order = draw(gen.perm_st(list(range(len(dec)))))
+        dec, rew = [dec[k] for k in order], [rew[k] for k in order]
+        row = draw(gen.contexts_st(1, h.d, h.grid))[0]
+        h.ops.append(["fit", dec, rew, [list(row) for _ in dec] if h.contextual else None])
+        h.fitted, h.rows = True, len(dec)
+        q = [list(row) for _ in range(draw(st.integers(1, 3)))] if h.contextual else h.queries()
+        return {"config": cfg, "ops": h.ops, "query": q}
     h.fit() if draw(st.integers(0, 3)) else h.partial_fit()
     for _ in range(draw(st.integers(0, 5))):
         gen.step_any(h, gen.TRAIN_KINDS + gen.ARM_KINDS + gen.WARM_KINDS + ["predict"])
@@ -79,6 +119,9 @@ def evaluate(plan, ctx):
         if vals.count(mx) > 1:
             nt = True
             ev.append("exact_tie")
+        elif any(v != mx and abs(v - mx) <= 1e-9 * max(abs(mx), 1e-300) for v in vals):
+            nt = True
+            ev.append("near_tie_not_a_tie")
         if not (pr == first and type(pr) == type(first) or (pr == first and cfg["arm_kind"] in ("float", "mix"))):
             raise Violation("not_first_argmax", "row %d: predict returned %r, the first arm attaining the maximum of "
                             "the expectations %s is %r" % (i, pr, ops.short(row), first),
